@@ -86,7 +86,11 @@ theorem lanczos_short_only_by_threshold (hN : NormContract dnorm) {v : List 𝕜
   have hind' : LinearIndependent 𝕜
       (fun j : Fin (V.n + 1) => (toMatrix v.length M ^ (j : ℕ)) *ᵥ toVec v.length v) :=
     hind.comp (Fin.castLE hle) (Fin.castLE_injective hle)
-  exact ⟨(lanczos_no_breakdown_of_independent hN hM hH hl hind').1, lanczos_full hN (hM.isHermitian hH) hl hk⟩
+  have hdim : numiter ≤ v.length := by
+    have := hind.fintype_card_le_finrank
+    simpa using this
+  exact ⟨(lanczos_no_breakdown_of_independent hN hM hH hl hind').1,
+    lanczos_full_le hN (hM.isHermitian hH) hl hdim hk⟩
 
 /-- **Exact Arnoldi breakdown ⟹ Krylov space exhausted** (arbitrary linear map). -/
 theorem krylov_exhausted_of_arnoldi_breakdown (hN : NormContract dnorm) {v : List 𝕜} {numiter : Nat}
@@ -121,7 +125,10 @@ theorem arnoldi_short_only_by_threshold (hN : NormContract dnorm) {v : List 𝕜
   have hind' : LinearIndependent 𝕜
       (fun j : Fin (V.n + 1) => (toMatrix v.length M ^ (j : ℕ)) *ᵥ toVec v.length v) :=
     hind.comp (Fin.castLE hle) (Fin.castLE_injective hle)
-  exact ⟨(arnoldi_no_breakdown_of_independent hN hM hl hind').1, arnoldi_full hN hl hk⟩
+  have hdim : numiter ≤ v.length := by
+    have := hind.fintype_card_le_finrank
+    simpa using this
+  exact ⟨(arnoldi_no_breakdown_of_independent hN hM hl hind').1, arnoldi_full_le hN hl hdim hk⟩
 
 /-! ### non-vacuity -/
 
@@ -177,7 +184,7 @@ example : ∃ (Afun : List ℝ → List ℝ) (M : Nat → Nat → ℝ) (dnorm : 
   have hpos : 0 < sqrtNorm ([1, 0] : List ℝ) := (sqrtNorm_contract.pos_iff _).2 ⟨1, by simp, one_ne_zero⟩
   refine ⟨matvec A, A.f, sqrtNorm, [1, 0], sqrtNorm_contract, hM, hH, ?_, ?_⟩
   · obtain ⟨⟨alpha, beta, V⟩, hl⟩ := lanczos_returns (matvec A) (sqrtNorm (𝕜 := ℝ)) (vstart := [1, 0]) (numiter := 1)
-      hpos (by omega)
+      hpos (by omega) (by simp)
     obtain ⟨h1, h2, _, _, h5⟩ := lanczos_shapes _ _ hl
     have hVn : V.n = 1 := by omega
     obtain ⟨m, k, f⟩ := V
@@ -187,7 +194,7 @@ example : ∃ (Afun : List ℝ → List ℝ) (M : Nat → Nat → ℝ) (dnorm : 
       exKrylov_indep
     exact ⟨alpha, beta, _, hl, hind, (lanczos_no_breakdown_of_independent (v := [1, 0]) sqrtNorm_contract hM hH hl hind).1⟩
   · obtain ⟨⟨H, V⟩, hl⟩ := arnoldi_returns (matvec A) (sqrtNorm (𝕜 := ℝ)) (vstart := [1, 0]) (numiter := 1)
-      hpos (by omega)
+      hpos (by omega) (by simp)
     obtain ⟨h1, h2, _, _, h5⟩ := arnoldi_shapes _ _ hl
     have hVn : V.n = 1 := by omega
     obtain ⟨m, k, f⟩ := V
@@ -243,7 +250,7 @@ example : ∃ alpha beta V, NormContract (sqrtNorm (𝕜 := ℝ)) ∧ ActsAs 2 (
   have hsq : sqNorm ([1, 0] : List ℝ) = 1 := by simp [sqNorm]
   have hnrm : sqrtNorm ([1, 0] : List ℝ) = 1 := by unfold sqrtNorm; rw [hsq, Real.sqrt_one]
   obtain ⟨⟨alpha, beta, V⟩, hl⟩ := lanczos_returns (matvec exTiny) (sqrtNorm (𝕜 := ℝ)) (vstart := [1, 0])
-    (numiter := 2) (by rw [hnrm]; exact one_pos) (by omega)
+    (numiter := 2) (by rw [hnrm]; exact one_pos) (by omega) (by simp)
   refine ⟨alpha, beta, V, sqrtNorm_contract, hM, hH, hl, exTiny_indep, ?_⟩
   obtain ⟨h1, h2, h3, h4, h5⟩ := lanczos_shapes _ _ hl
   by_contra hcon
